@@ -170,7 +170,11 @@ def host_cases(draw, tier):
     kind = draw(st.sampled_from(['mul', 'mul', 'sq']))
     host = draw(arith.hosts(min_inputs=1, max_inputs=6, max_gates=8))
     case = {'kind': kind, 'host': host, 'host_route': draw(arith.gen.routes(host)), 'be': draw(st.booleans()), 'uuid_seed': draw(st.integers(0, 2 ** 20)),
-            'row_seed': draw(st.integers(0, 2 ** 20))}
+            'row_seed': draw(st.integers(0, 2 ** 20)),
+            # what the caller hands over: private copies, the host's live inputs / outputs list as the first number, or
+            # one and the same list object for both numbers (x * x through a multiplier)
+            'alias': draw(st.sampled_from([None, None, None, 'inputs', 'outputs', 'same_object', 'same_object'])),
+            'hand': draw(st.sampled_from(arith.HAND_STYLES))}
     if kind == 'mul':
         case['mode'] = draw(st.sampled_from(list(ADD_MUL)))
         # host operands do not enlarge the table: sometimes long and lopsided numbers
@@ -195,24 +199,38 @@ def check_host(case):
     a = arith.resolve_operands(host, case['a'])
     be = case['be']
     typ = {g[0]: g[1] for g in host['gates']}
+    alias = case.get('alias')
+    hs = case.get('hand', 'list')
+    arg_a = arith.hand(a, hs)
+    acls = {'hand:' + hs}
+    if alias in ('inputs', 'outputs'):
+        live = c.inputs if alias == 'inputs' else c.outputs
+        if 1 <= len(live) <= 24:
+            a, arg_a = list(live), live
+            acls.add('alias:live_list')
     with UuidStream(case['uuid_seed']):
         if case['kind'] == 'mul':
             b = arith.resolve_operands(host, case['b'])
+            arg_b = arith.hand(b, hs)
+            if alias == 'same_object':
+                arg_a = list(a)
+                b, arg_b = list(a), arg_a
+                acls.add('alias:same_object')
             fn = getattr(ar, ADD_MUL[case['mode']])
-            ret = fn(c, list(a), list(b), big_endian=be)
+            ret = fn(c, arg_a, arg_b, big_endian=be)
             exp_len = expected_len('mul', len(a), len(b))
             what = f'{ADD_MUL[case["mode"]]}(|a|={len(a)}, |b|={len(b)}, big_endian={be})'
         else:
             b = a
             fn = ar.add_square if case['mode'] == 'DEFAULT' else ar.add_square_pow2_m1
-            ret = fn(c, list(a), big_endian=be)
+            ret = fn(c, arg_a, big_endian=be)
             exp_len = expected_len('sq', len(a))
             what = f'{fn.__name__}(n={len(a)}, big_endian={be})'
     res, t, fresh = arith.host_discipline(host, before, c, t0, pats, mask)
     if len(ret) != exp_len:
         raise Violation('result_length', f'{what}: {len(ret)} result bits, expected {exp_len}')
     check_product(t, a, b, list(ret), be, what)
-    cls = {case['kind'] + ':' + case['mode'], 'be' if be else 'le'}
+    cls = {case['kind'] + ':' + case['mode'], 'be' if be else 'le'} | acls
     if any(typ[x] != 'INPUT' for x in a + b):
         cls.add('internal_operands')
     if len(set(a)) < len(a) or (case['kind'] == 'mul' and (len(set(b)) < len(b) or set(a) & set(b))):
@@ -235,5 +253,6 @@ SPEC = {
     'subs': [Sub('host', host_cases, check_host, {'quick': 1200, 'thorough': 75000})],
     'sharded': {'width_sweep': sweep},
     'replay': {'width_sweep': replay_sweep},
-    'required_classes': {'host': ['mul:' + k for k in ADD_MUL] + ['sq:DEFAULT', 'sq:POW2_M1', 'internal_operands', 'be', 'le']},
+    'required_classes': {'host': ['mul:' + k for k in ADD_MUL] + ['sq:DEFAULT', 'sq:POW2_M1', 'internal_operands', 'be', 'le',
+                                                                       'alias:live_list', 'alias:same_object']},
 }
